@@ -13,8 +13,11 @@ if [ -f $wt/patch.diff ]; then
   (cd $wt && git ls-files --others --exclude-standard | grep '_seeded_test.go$' | while read f; do cp $f $dst/$(basename $f).txt; done)
 fi
 cd /repo
+if [ -n "$(git status --porcelain)" ]; then echo "== $name: /repo is not clean, refusing"; exit 1; fi
 if ! git apply --check $dst/patch.diff 2>/dev/null; then
-  if ! git apply --3way $dst/patch.diff 2>/dev/null; then echo "== $name: PATCH DOES NOT APPLY"; git checkout -- . ; exit 1; fi
+  # a failed 3-way merge leaves unmerged index entries which "checkout -- ." does not clear
+  if ! git apply --3way $dst/patch.diff 2>/dev/null; then echo "== $name: PATCH DOES NOT APPLY"; git reset -q --hard HEAD; exit 1; fi
+  git reset -q 2>/dev/null
 else
   git apply $dst/patch.diff
 fi
@@ -37,7 +40,7 @@ for sd in $seeds; do
 done
 done
 res="$res}"
-git -C /repo checkout -- .
+git -C /repo reset -q --hard HEAD
 find /verif/replays -name '*.json' -newer /verif/bin/seedtest.sh -delete 2>/dev/null
 python3 - "$dst" "$id" "$name" "$ut" "$res" <<'PY'
 import json,sys,os
